@@ -116,12 +116,13 @@ Definition opt_list_eqb (a b : option (list tree)) : bool :=
   | _, _ => false
   end.
 
-(* one correspondence case: the forest lark transformed, the tree it returned, and (optionally) what
+(* one correspondence case: strict (compare the trees exactly; false only when lark's tree contains an _ambig
+   object reachable from two parents, see norm), the forest lark transformed, the tree it returned, and (optionally) what
    CollapseAmbiguities().transform returned for that tree (None = an exception). *)
-Definition check_case (c : node * tree * option (option (list tree))) : bool :=
-  let '(n, t, obs) := c in
+Definition check_case (c : bool * node * tree * option (option (list tree))) : bool :=
+  let '(strict, n, t, obs) := c in
   root_okb n
-  && tree_eqb (norm (to_tree_explicit n)) (norm t)
+  && (if strict then tree_eqb (to_tree_explicit n) t else tree_eqb (norm (to_tree_explicit n)) (norm t))
   && match obs with
      | None => true
      | Some o => opt_list_eqb o (res_list (collapse t))
